@@ -42,5 +42,8 @@ PROPS = {
                      rapid("TestC11Alloc", 300, 2000, race=True, name="TestC11Alloc(race)", env={"GORACE": "halt_on_error=1 exitcode=66"}),
                      rapid("TestC15", 300, 1500, race=True, name="TestC15(race)", thorough_only=True, env={"GORACE": "halt_on_error=1 exitcode=66"})]},
     "C15": {"jobs": [rapid("TestC15", 2500, 8000)]},
+    "C16": {"jobs": [rapid("TestC16", 20000, 120000)]},
+    "C17": {"jobs": [rapid("TestC17Docs", 10000, 60000), rapid("TestC17Request", 1000, 4000)]},
+    "C18": {"jobs": [rapid("TestC18Enrich", 5000, 30000), rapid("TestC18Cache", 4000, 30000), rapid("TestC18Providers", 4000, 20000)]},
     "C19": {"jobs": [rapid("TestC19", 3000, 8000), enum("TestC19Extremes")]},
 }
